@@ -1,6 +1,7 @@
 package c09
 
 import (
+	"errors"
 	"fmt"
 	"os"
 	"path/filepath"
@@ -41,6 +42,10 @@ type Case struct {
 	Regime    string             `json:"regime"` // R1 cache disabled | R2 shared cache, at most one search in flight | R3 shared cache, several searches
 	Warmth    string             `json:"warmth"` // cold | partly | warm
 	Schedule  []int              `json:"schedule"`
+	// CacheCap > 0 bounds the shared cache to that many bytes (caches are pruned when transactions end); 0 = unbounded
+	CacheCap int64 `json:"cacheCap,omitempty"`
+	// FailCommit lists writer batches whose storage commit is made to fail after the batch body succeeded
+	FailCommit []int `json:"failCommit,omitempty"`
 }
 
 func genCase(t *rapid.T) Case {
@@ -78,6 +83,14 @@ func genCase(t *rapid.T) Case {
 			}
 		}
 	}
+	if c.Regime != "R1" && rapid.IntRange(0, 2).Draw(t, "bounded") == 0 {
+		c.CacheCap = rapid.SampledFrom([]int64{1, 300, 1500, 6000}).Draw(t, "cacheCap")
+	}
+	for i := range c.Writer {
+		if rapid.IntRange(0, 7).Draw(t, fmt.Sprintf("failCommit%d", i)) == 0 {
+			c.FailCommit = append(c.FailCommit, i)
+		}
+	}
 	n := rapid.IntRange(0, 40).Draw(t, "nsched")
 	for i := 0; i < n; i++ {
 		c.Schedule = append(c.Schedule, rapid.IntRange(0, nsearchers).Draw(t, fmt.Sprintf("s%d", i)))
@@ -96,9 +109,9 @@ type participant struct {
 	done   chan struct{}
 	// current operation bookkeeping (timeline)
 	preT, beginT, preEndT, endT int64
-	txWrite                      bool
-	txErr                        error
-	bodyDone                     atomic.Bool // the body of the current read transaction has returned (no more cache use)
+	txWrite                     bool
+	txErr                       error
+	bodyDone                    atomic.Bool // the body of the current read transaction has returned (no more cache use)
 }
 
 type searchRecord struct {
@@ -111,16 +124,17 @@ type searchRecord struct {
 }
 
 type world struct {
-	mu       sync.Mutex
-	s        *drive.Shard
-	parts    []*participant
-	byGoid   map[int64]*participant
-	versions []*model.Collection // versions[k] = committed state after k writer batches (0 = after the prefix)
-	commitT  []int64             // version k became visible before commitT[k] ...
-	preT     []int64             // ... and after preT[k] (both 0 for version 0)
-	searches []searchRecord
-	viol     error
-	trace    []string
+	mu            sync.Mutex
+	s             *drive.Shard
+	parts         []*participant
+	byGoid        map[int64]*participant
+	versions      []*model.Collection // versions[k] = committed state after k writer batches (0 = after the prefix)
+	commitT       []int64             // version k became visible before commitT[k] ...
+	preT          []int64             // ... and after preT[k] (both 0 for version 0)
+	searches      []searchRecord
+	viol          error
+	trace         []string
+	failedCommits int
 }
 
 func (w *world) logf(f string, a ...any) {
@@ -211,6 +225,9 @@ func execCase(c Case) (res vt.Result) {
 	var mgr *cache.Manager
 	if c.Regime != "R1" {
 		mgr = cache.NewManager(-1)
+		if c.CacheCap > 0 {
+			mgr = cache.NewManager(c.CacheCap)
+		}
 	}
 	s, err := drive.Open(path, c.Schema, 1<<20, mgr)
 	if err != nil {
@@ -335,7 +352,27 @@ func execCase(c Case) (res vt.Result) {
 			case "delete":
 				want = wm.Delete(st.Ids)
 			}
+			injected := false
+			for _, k := range c.FailCommit {
+				injected = injected || k == bi
+			}
+			if injected {
+				s.Proxy.Arm(&drive.Plan{FailCommit: true})
+			}
 			got, err := applyToShard(s, st)
+			if injected {
+				s.Proxy.Arm(nil)
+				if reason == "" {
+					if err == nil || !errors.Is(err, drive.ErrInjected) && !strings.Contains(err.Error(), drive.ErrInjected.Error()) {
+						w.violate("writer batch %d (%s): the storage commit was made to fail but the call returned %v", bi, st.Kind, err)
+						return
+					}
+					reason = "injected commit failure"
+					w.mu.Lock()
+					w.failedCommits++
+					w.mu.Unlock()
+				}
+			}
 			if (err != nil) != (reason != "") {
 				w.violate("writer batch %d (%s) returned %v, model says %q", bi, st.Kind, err, reason)
 				return
@@ -632,6 +669,10 @@ func execCase(c Case) (res vt.Result) {
 	}
 	_ = poisoned
 	rec.Count("regime_"+c.Regime, 1)
+	if c.CacheCap > 0 {
+		rec.Count("cases_with_bounded_cache", 1)
+	}
+	rec.Count("writer_batches_with_failed_commit", int64(w.failedCommits))
 	rec.Count("searches", int64(len(w.searches)))
 	if spansCommit {
 		rec.Count("cases_with_search_spanning_commit", 1)
